@@ -57,7 +57,7 @@ def configs(tier):
                     if len(I0) > 1:
                         bounds = []     # two initial episodes + reinfection: thorough tier
                 else:
-                    bounds = ([(3, 3)] + ([(4, 2)] if len(I0) == 1 else [])) if g == 'P3' else ([(3, 2)] if len(I0) <= 2 else [])     # (sized to the path cap)
+                    bounds = ([(3, 3)] + ([(4, 2)] if len(I0) == 1 else [])) if g == 'P3' else ([(2, 3)] if len(I0) <= 2 else [])     # (sized to the path cap)
                 for (ep, pt) in bounds:
                     out.append(dict(family='fast', entry='fast_SIS', graph=g, I0=I0, R0=[], weights=w, full=True, tmax='sym',
                                     max_episodes=ep, max_points=pt, tags=['fast', g, 'w:' + w, 'ep%d' % ep]))
